@@ -84,6 +84,16 @@ def arm_returns_err(arm_body):
             for x in walk(n):
                 if x.get('k') == 'path' and (x.get('path') or '').endswith('Result::Err'):
                     return True
+    # ... or the arm's own value is `Err(..)` (expression arm of a match in tail position / in a try_fold closure; a dropped result is C09/R4's business)
+    t = arm_body
+    for _ in range(6):
+        t = peel(t)
+        if t.get('k') == 'block' and t.get('expr') is not None:
+            t = t['expr']
+            continue
+        break
+    if t.get('k') == 'call' and (peel(t.get('f', {})).get('path') or '').endswith('Result::Err'):
+        return True
     return False
 
 
@@ -94,6 +104,19 @@ def pat_variant(p):
         if x.get('k') == 'p_expr' and x['e'].get('path'):
             return x['e']['path']
     return None
+
+
+def pat_mentions(p, suffix):
+    return any((x.get('path') or (x.get('e') or {}).get('path') or '').endswith(suffix) for x in walk(p) if x.get('k') in ('p_tuplestruct', 'p_struct', 'p_expr', 'p_path'))
+
+
+def is_catch_all(p):
+    """`_`, `other`, `Some(_)`, `Some(other)`: whatever is left"""
+    if p.get('k') in ('p_wild',) or (p.get('k') == 'p_bind' and 'sub' not in p):
+        return True
+    if p.get('k') == 'p_tuplestruct' and (p.get('path') or '').endswith('Option::Some') and len(p.get('pats', [])) == 1:
+        return is_catch_all(p['pats'][0])
+    return False
 
 
 def r2_occupied_is_error(rep, facts):
@@ -123,7 +146,7 @@ def r2_occupied_is_error(rep, facts):
     # start_table: `_ => Err(duplicate_key)`
     b = facts.body(ST + 'start_table')
     arms = [a for m in walk(b['body']) if m.get('k') == 'match' and m.get('src') == 'Normal' for a in m['arms']]
-    wild = [a for a in arms if a['pat'].get('k') == 'p_wild']
+    wild = [a for a in arms if is_catch_all(a['pat'])]
     rep.check(R, 'state::ParseState::start_table|_=>Err', len(wild) == 1 and arm_returns_err(wild[0]['body']), '_ => return Err(duplicate_key)',
               'start_table no longer rejects a header that names an existing non-implicit entry', facts.loc(b))
     # start_array_table / finalize_table: as_array_of_tables(_mut)().ok_or_else(duplicate)?
@@ -137,8 +160,9 @@ def r2_occupied_is_error(rep, facts):
         rep.check(R, d.replace(P, '') + f'|{meth}.ok_or_else(dup)', ok, f'entry.{meth}().ok_or_else(duplicate_key)?',
                   f'`{d.replace(P, "")}` no longer rejects `[[x]]` when `x` is not an array of tables', facts.loc(b))
     b = facts.body(ST + 'finalize_table')
-    arms = [a for m in walk(b['body']) if m.get('k') == 'match' and m.get('src') == 'Normal' for a in m['arms']]
-    wild = [a for a in arms if a['pat'].get('k') == 'p_wild']
+    # the catch-all arm of the match over the occupied entry's item (the one that has an `Item::Table(..)` arm)
+    wild = [a for m in walk(b['body']) if m.get('k') == 'match' and any(pat_mentions(x['pat'], 'Item::Table') for x in m['arms'])
+            for a in m['arms'] if is_catch_all(a['pat'])]
     rep.check(R, 'state::ParseState::finalize_table|_=>Err', len(wild) == 1 and arm_returns_err(wild[0]['body']), 'occupied by anything but an implicit table => Err',
               'finalize_table no longer rejects attaching a table over an existing explicit entry', facts.loc(b))
 
@@ -200,7 +224,7 @@ def r3_truth_tables(rep, facts):
     # start_table: reuse <=> Item::Table(t) if implicit && !dotted
     b = facts.body(ST + 'start_table')
     arms = [a for m in walk(b['body']) if m.get('k') == 'match' and m.get('src') == 'Normal' for a in m['arms']]
-    reuse = [a for a in arms if (pat_variant(a['pat']) or '').endswith('Item::Table')]
+    reuse = [a for a in arms if pat_mentions(a['pat'], 'Item::Table')]
     ok = False
     detail = 'reuse arm not found'
     if len(reuse) == 1 and 'guard' in reuse[0]:
@@ -216,7 +240,7 @@ def r3_truth_tables(rep, facts):
     # finalize_table: swap only over implicit
     b = facts.body(ST + 'finalize_table')
     arms = [a for m in walk(b['body']) if m.get('k') == 'match' and m.get('src') == 'Normal' for a in m['arms']]
-    sw = [a for a in arms if (pat_variant(a['pat']) or '').endswith('Item::Table')]
+    sw = [a for a in arms if pat_mentions(a['pat'], 'Item::Table')]
     ok = False
     detail = 'swap arm not found'
     if len(sw) == 1 and 'guard' in sw[0]:
